@@ -747,6 +747,18 @@ def builtin_attr(I, obj, name):
             def clear():
                 S.n = z3.IntVal(0)
             return meth(clear)
+        if name == 'insert':
+            def insert(i, x):
+                # list.insert: a negative index counts from the end, and the position is clamped to 0..len
+                it = to_term(i, 'int')
+                pt = z3.If(it < 0, z3.If(S.n + it < 0, z3.IntVal(0), S.n + it), z3.If(it > S.n, S.n, it))
+                I.fresh_n += 1
+                kq = z3.Int('k!insert%d' % I.fresh_n)
+                old = S.arr
+                S.arr = z3.Lambda([kq], z3.If(kq < pt, z3.Select(old, kq),
+                                              z3.If(kq == pt, to_term(x), z3.Select(old, kq - 1))))
+                S.n = z3.simplify(S.n + 1)
+            return meth(insert)
         if name == 'copy':
             return meth(lambda: SymSeq(S.arr, S.n, S.ek))
         return _MISSING
